@@ -1020,7 +1020,7 @@ class ValueList(Value):
         self.value.remove(item)
 
     def deleteAt(self, index):
-        if index >= len(self.value):
+        if index >= len(self.value) or index < -len(self.value):
             return NULL
         result = self.value[index]
         del self.value[index]
